@@ -412,23 +412,23 @@ MergeLoopEnd ==
                    everIds, nops, ncrash, mghost>>
 
 NextUnlink == IF "UnlinkDescending" \in Deviations THEN Max(wr.unl) ELSE Min(wr.unl)
-\* for id in selected, ascending: stats.remove(id); unlink hint (ENOENT tolerated); unlink data
+\* for id in selected, ascending: unlink hint (ENOENT tolerated); unlink data; stats.remove(id)
 MergeUnlinkHint ==
     /\ wr.pc = "m.unlink" /\ wr.unl # {}
     /\ LET id == NextUnlink
-       IN /\ stats' = Drop(stats, id)
-          /\ hint' = Drop(hint, id)
+       IN /\ hint' = Drop(hint, id)
           /\ hsync' = Drop(hsync, id)
     /\ wr' = [wr EXCEPT !.pc = "m.unlink_data"]
-    /\ UNCHANGED <<cfg, data, dsync, keydir, active, written, model, everIds, nops, ncrash, mghost>>
+    /\ UNCHANGED <<cfg, data, dsync, keydir, stats, active, written, model, everIds, nops, ncrash, mghost>>
 
 MergeUnlinkData ==
     /\ wr.pc = "m.unlink_data"
     /\ LET id == NextUnlink
        IN /\ data' = Drop(data, id)
           /\ dsync' = Drop(dsync, id)
+          /\ stats' = Drop(stats, id)      \* the statistics are forgotten only once the file is gone
           /\ wr' = [wr EXCEPT !.pc = "m.unlink", !.unl = @ \ {id}]
-    /\ UNCHANGED <<cfg, hint, hsync, keydir, stats, active, written, model, everIds, nops,
+    /\ UNCHANGED <<cfg, hint, hsync, keydir, active, written, model, everIds, nops,
                    ncrash, mghost>>
 
 \* new_active_datafile(last output + 1) and the return
